@@ -2,7 +2,7 @@
    the two escaping exceptions, the musl pipeline end to end on encoder images, and the memoised probes across calls. *)
 From Coq Require Import List Arith NArith Bool Lia.
 Import ListNotations.
-Require Import Elf ElfFile ElfProofs ElfDisk ElfDiskProofs VParse VDec Tags TagsLit TagsModel TagsProofs PlatLit PlatModel PlatProofs PlatLoader.
+Require Import Elf ElfFile ElfProofs ElfDisk ElfDiskProofs VParse VDec Tags TagsLit TagsModel TagsProofs TagsThread PlatLit PlatModel PlatProofs PlatParse PlatLoader.
 Open Scope N_scope.
 Arguments N.eqb : simpl never.
 Arguments N.leb : simpl never.
@@ -20,10 +20,11 @@ Proof. intros H. unfold musllinux_tags_x, get_musl_version_x. now rewrite H. Qed
 Theorem musl_x_agrees lim exe le archs :
   musl_loader_disk lim exe = musl_loader exe ->
   (forall ld, musl_loader exe = Some ld -> run_loader le ld = LRan (le_stderr le)) ->
+  parse_musl_version_l (le_intmax le) (le_stderr le) = parse_musl_version (le_stderr le) ->
   musllinux_tags_x lim exe le archs = musllinux_tags exe (le_stderr le) archs.
 Proof.
-  intros A R. unfold musllinux_tags_x, get_musl_version_x, musllinux_tags, get_musl_version, musl_render. rewrite A.
-  destruct (musl_loader exe) as [ld|] eqn:E; [|reflexivity]. now rewrite (R ld eq_refl).
+  intros A R P. unfold musllinux_tags_x, get_musl_version_x, musllinux_tags, get_musl_version, musl_render. rewrite A.
+  destruct (musl_loader exe) as [ld|] eqn:E; [|reflexivity]. now rewrite (R ld eq_refl), P.
 Qed.
 Lemma run_loader_ok le ld : has_nul ld = false -> (le_all le = true \/ In ld (le_existing le)) -> run_loader le ld = LRan (le_stderr le).
 Proof.
@@ -54,7 +55,7 @@ Theorem linux_x_shape is32 plat e lim le :
   (forall arch, normalize_string plat = s_linux_ ++ arch ->
      linux_platforms_x is32 plat e lim le =
      let archs := linux_archs (if is32 then remap32 arch else arch) in
-     manylinux_tags e archs ++ musllinux_tags_x lim (m_exe e) le archs ++ map (fun a => s_linux_ ++ a) archs).
+     manylinux_tags_l (le_intmax le) e archs ++ musllinux_tags_x lim (m_exe e) le archs ++ map (fun a => s_linux_ ++ a) archs).
 Proof.
   split.
   - intros H. unfold linux_platforms_x. cbv zeta. now rewrite H.
@@ -67,10 +68,12 @@ Qed.
 Corollary linux_x_agrees is32 plat e lim le :
   musl_loader_disk lim (m_exe e) = musl_loader (m_exe e) ->
   (forall ld, musl_loader (m_exe e) = Some ld -> run_loader le ld = LRan (le_stderr le)) ->
+  parse_musl_version_l (le_intmax le) (le_stderr le) = parse_musl_version (le_stderr le) ->
+  get_glibc_version_l (le_intmax le) (m_confstr e) (m_ctypes e) = get_glibc_version (m_confstr e) (m_ctypes e) ->
   linux_platforms_x is32 plat e lim le = linux_platforms is32 plat e (le_stderr le).
 Proof.
-  intros A R. unfold linux_platforms_x, linux_platforms. cbv zeta. destruct (negb (starts_with s_linux_ (normalize_string plat))); [reflexivity|].
-  now rewrite (musl_x_agrees lim (m_exe e) le _ A R).
+  intros A R P G. unfold linux_platforms_x, linux_platforms. cbv zeta. destruct (negb (starts_with s_linux_ (normalize_string plat))); [reflexivity|].
+  rewrite (musl_x_agrees lim (m_exe e) le _ A R P). unfold manylinux_tags_l, manylinux_tags. now rewrite G.
 Qed.
 
 (* ---------------------------------------------------------------- the musl pipeline end to end on encoder images *)
@@ -129,7 +132,7 @@ Theorem musl_end_to_end_x lim le s ph archs : wf_spec s -> 4194304 <= seek_max l
   (contains s_musl ld = true -> has_nul ld = false -> le_all le = false -> ~ In ld (le_existing le) ->
      musllinux_tags_x lim (Some (encode s)) le archs = []) /\
   (contains s_musl ld = true -> has_nul ld = false -> (le_all le = true \/ In ld (le_existing le)) ->
-     musllinux_tags_x lim (Some (encode s)) le archs = map (render3 s_musllinux_) (musl_struct (parse_musl_version (le_stderr le)) archs)).
+     musllinux_tags_x lim (Some (encode s)) le archs = map (render3 s_musllinux_) (musl_struct (parse_musl_version_l (le_intmax le) (le_stderr le)) archs)).
 Proof.
   intros W SM FI Off Sz Small ld. pose proof (musl_loader_disk_encoded lim s ph W SM FI Off Sz Small) as L. fold ld in L.
   split; [intros C; rewrite C in L; now apply musl_x_no_loader|].
@@ -148,7 +151,7 @@ Lemma run_keyed_nth c l : forall i k now, nth_error l i = Some (k, now) ->
   option_map Some (nth_error (run_keyed c l) i) = Some (or_cache c k (firstn (S i) l)).
 Proof.
   revert c. induction l as [|[k0 n0] t IH]; intros c i k now H; [destruct i; discriminate H|].
-  cbn [run_keyed]. unfold cached_musl. destruct i as [|j].
+  cbn [run_keyed]. unfold cached_unb. destruct i as [|j].
   - cbn [nth_error] in H. inversion H; subst. unfold or_cache. cbn [firstn first_for]. rewrite streq_refl.
     destruct (cache_get k c) as [v|]; reflexivity.
   - cbn [nth_error] in H. destruct (cache_get k0 c) as [v0|] eqn:G.
@@ -166,7 +169,7 @@ Proof.
 Qed.
 Lemma run_keyed_length c l : length (run_keyed c l) = length l.
 Proof.
-  revert c. induction l as [|[k n] t IH]; intros c; [reflexivity|]. cbn [run_keyed]. unfold cached_musl.
+  revert c. induction l as [|[k n] t IH]; intros c; [reflexivity|]. cbn [run_keyed]. unfold cached_unb.
   destruct (cache_get k c); cbn [length]; now rewrite IH.
 Qed.
 (* transparency: if an executable path always gets the same uncached answer, memoisation changes nothing; and different paths do
@@ -190,29 +193,150 @@ Proof.
 Qed.
 Theorem keyed_not_shared k1 k2 a b : k1 <> k2 -> run_keyed [] [(k1, a); (k2, b); (k1, b)] = [a; b; a].
 Proof.
-  intros N. unfold run_keyed, cached_musl. cbn [cache_get].
+  intros N. unfold run_keyed, cached_unb. cbn [cache_get].
   destruct (streq_spec k1 k2) as [E|_]; [contradiction|]. cbn [cache_get].
   destruct (streq_spec k2 k1) as [E|_]; [congruence|]. now rewrite streq_refl.
 Qed.
 (* a None answer is memoised like any other (so a loader that could not be run is not tried again for that path) *)
-Lemma none_is_cached c k : cache_get k c = None -> cached_musl c k None = ((k, None) :: c, None).
-Proof. intros H. unfold cached_musl. now rewrite H. Qed.
+Lemma none_is_cached c k : cache_get k c = None -> cached_unb c k None = ((k, None) :: c, None) /\ cached_musl c k None = (firstn cache_cap ((k, None) :: c), None).
+Proof. intros H. unfold cached_unb, cached_musl. now rewrite H. Qed.
+
+(* ---------------------------------------------------------------- the bounded memo (lru_cache, 128 entries) *)
+Definition keys (c : musl_cache) : list (list N) := map fst c.
+Lemma cache_get_none k c : cache_get k c = None <-> ~ In k (keys c).
+Proof.
+  induction c as [|[k' v] t IH]; cbn [cache_get keys map In]; [tauto|]. destruct (streq_spec k' k) as [->|N]; [split; [discriminate | intros H; exfalso; auto]|].
+  rewrite IH. unfold keys. tauto.
+Qed.
+Lemma cache_remove_get k k' c : NoDup (keys c) -> cache_get k' (cache_remove k c) = if streq k k' then None else cache_get k' c.
+Proof.
+  induction c as [|[k0 v] t IH]; intros ND; cbn [cache_remove cache_get]; [destruct (streq k k'); reflexivity|].
+  inversion ND as [|? ? Hn Ht]; subst. destruct (streq_spec k0 k) as [->|N].
+  - destruct (streq_spec k k') as [->|N']; [apply cache_get_none; exact Hn | reflexivity].
+  - cbn [cache_get]. rewrite (IH Ht). destruct (streq_spec k0 k') as [->|N2]; [destruct (streq_spec k k'); [congruence | reflexivity] | reflexivity].
+Qed.
+Lemma cache_remove_keys k c : incl (keys (cache_remove k c)) (keys c) /\ (NoDup (keys c) -> NoDup (keys (cache_remove k c)) /\ ~ In k (keys (cache_remove k c))).
+Proof.
+  induction c as [|[k0 v] t [I1 I2]]; cbn [cache_remove keys map]; [split; [apply incl_refl | intros; split; [constructor | intros []]]|].
+  destruct (streq_spec k0 k) as [->|N].
+  - split; [apply incl_tl, incl_refl|]. intros ND. inversion ND; subst. auto.
+  - split; [cbn [keys map]; apply incl_cons; [now left | apply incl_tl; exact I1]|].
+    intros ND. inversion ND as [|? ? Hn Ht]; subst. destruct (I2 Ht) as [J1 J2]. cbn [keys map]. split.
+    + constructor; auto.
+    + intros [E|C]; [exact (N E) | exact (J2 C)].
+Qed.
+(* as long as at most cache_cap different paths are in play (K lists them), the bounded memo answers like the unbounded one *)
+Lemma run_lru_eq K : (length K <= cache_cap)%nat -> forall l cl cu,
+  NoDup (keys cl) -> incl (keys cl) K -> incl (map fst l) K -> (forall k, cache_get k cl = cache_get k cu) ->
+  run_lru cl l = run_keyed cu l.
+Proof.
+  intros HK. induction l as [|[k now] t IH]; intros cl cu ND IC IL G; [reflexivity|]. cbn [run_lru run_keyed].
+  unfold cached_musl, cached_unb. rewrite <- (G k). cbn [map fst] in IL.
+  assert (Hk : In k K) by (apply IL; now left). assert (IT : incl (map fst t) K) by (intros x Hx; apply IL; now right).
+  destruct (cache_get k cl) as [v|] eqn:E.
+  - f_equal. destruct (cache_remove_keys k cl) as [I1 I2]. destruct (I2 ND) as [J1 J2]. apply IH; auto.
+    + cbn [keys map]. constructor; auto.
+    + cbn [keys map]. apply incl_cons; auto. intros x Hx. apply IC. exact (I1 _ Hx).
+    + intros k'. cbn [cache_get]. rewrite (cache_remove_get k k' cl ND), <- (G k'). destruct (streq_spec k k') as [->|]; [now rewrite E | reflexivity].
+  - f_equal. assert (NK : ~ In k (keys cl)) by (now apply cache_get_none).
+    assert (ND' : NoDup (k :: keys cl)) by (constructor; auto).
+    assert (Len : (length ((k, now) :: cl) <= cache_cap)%nat).
+    { assert (L1 : (length (k :: keys cl) <= length K)%nat) by (apply (NoDup_incl_length ND'); apply incl_cons; auto).
+      cbn [length] in *. unfold keys in L1. rewrite map_length in L1. lia. }
+    rewrite firstn_all2 by exact Len. apply IH; auto.
+    + cbn [keys map]. apply incl_cons; auto.
+    + intros k'. cbn [cache_get]. now rewrite (G k').
+Qed.
+Theorem lru_is_keyed l K : (length K <= cache_cap)%nat -> incl (map fst l) K -> run_lru [] l = run_keyed [] l.
+Proof. intros HK IL. apply (run_lru_eq K HK l [] []); auto; [constructor | intros x []]. Qed.
+(* beyond the bound the first answer is forgotten: 129 other paths in between evict it (the model of the 130-key battery case) *)
 
 (* ---------------------------------------------------------------- the battery step ties both memo cells to the tag functions *)
 (* the glibc cell is the one-cell memo of PlatModel (C16_cache_transparent), consulted only when the ABI check passes; with empty
    memos a step answers what the uncached functions answer *)
 Theorem step_fresh archs st :
   snd (step_probes archs pstate0 st) =
-  (manylinux_tags (st_menv st) archs, musllinux_tags_x (st_lim st) (m_exe (st_menv st)) (st_le st) archs).
+  (manylinux_tags_l (le_intmax (st_le st)) (st_menv st) archs, musllinux_tags_x (st_lim st) (m_exe (st_menv st)) (st_le st) archs).
 Proof.
-  unfold step_probes, pstate0, manylinux_tags, musllinux_tags_x. cbn [ps_glibc ps_musl cached_probe]. unfold cached_musl. cbn [cache_get].
+  unfold step_probes, pstate0, manylinux_tags_l, musllinux_tags_x. cbn [ps_glibc ps_musl cached_probe]. unfold cached_musl. cbn [cache_get].
   destruct (have_compatible_abi (m_exe (st_menv st)) archs) eqn:A; reflexivity.
 Qed.
 Theorem step_glibc_cell archs s st :
   ps_glibc (fst (step_probes archs s st)) =
   if have_compatible_abi (m_exe (st_menv st)) archs
-  then fst (cached_probe (ps_glibc s) (get_glibc_version (m_confstr (st_menv st)) (m_ctypes (st_menv st))))
+  then fst (cached_probe (ps_glibc s) (get_glibc_version_l (le_intmax (st_le st)) (m_confstr (st_menv st)) (m_ctypes (st_menv st))))
   else ps_glibc s.
 Proof.
   unfold step_probes. destruct (have_compatible_abi _ _); [destruct (cached_probe _ _) | ]; destruct (cached_musl _ _ _); reflexivity.
+Qed.
+
+(* the musl column of the battery the correspondence run executes (p.probes: run_steps) IS the keyed memo run_lru over the steps'
+   (executable path, uncached answer) pairs - so the theorems about run_lru / run_keyed are about what is run *)
+Definition probe_of (st : pstep) : list N * option (nat * nat) := (st_key st, get_musl_version_x (st_lim st) (m_exe (st_menv st)) (st_le st)).
+Theorem run_steps_musl_column archs : forall sts s,
+  map snd (run_steps archs s sts) = map (fun v => musl_render v archs) (run_lru (ps_musl s) (map probe_of sts)).
+Proof.
+  induction sts as [|st t IH]; intros s; [reflexivity|]. cbn [run_steps map run_lru probe_of]. unfold step_probes.
+  destruct (if have_compatible_abi _ _ then _ else _) as [g' gv]. unfold probe_of.
+  destruct (cached_musl (ps_musl s) (st_key st) _) as [m' mv]. cbn [map snd]. f_equal. exact (IH _).
+Qed.
+
+(* ---------------------------------------------------------------- the version parsers with the interpreter's digit limit and digit class *)
+Definition version_shape_l (isd : char -> bool) (lim : nat) (s : str) (M m : nat) : Prop :=
+  exists d1 d2 r, s = d1 ++ [46] ++ d2 ++ r /\ d1 <> [] /\ d2 <> [] /\ forallb isd d1 = true /\ forallb isd d2 = true /\
+                  head_not isd r = true /\ (length d1 <= lim)%nat /\ (length d2 <= lim)%nat /\
+                  to_nat_dec (map to_ascii_digit d1) = M /\ to_nat_dec (map to_ascii_digit d2) = m.
+Lemma scan_l_spec isd lim s M m : isd 46 = false -> (scan_version_l isd lim s = Some (M, m) <-> version_shape_l isd lim s M m).
+Proof.
+  intros Dot. unfold scan_version_l, version_shape_l, within. split.
+  - destruct (span isd s) as [d1 r1] eqn:S1. apply span_complete in S1 as (-> & D1 & H1).
+    destruct d1 as [|x d1]; [discriminate|]. destruct r1 as [|c r2]; [discriminate|].
+    destruct (N.eqb_spec c 46) as [->|]; [|discriminate]. destruct (span isd r2) as [d2 r] eqn:S2.
+    apply span_complete in S2 as (-> & D2 & H2). destruct d2 as [|y d2]; [discriminate|].
+    destruct (Nat.leb_spec (length (x :: d1)) lim); [|discriminate]. destruct (Nat.leb_spec (length (y :: d2)) lim); [|discriminate].
+    cbn [andb]. intros E. inversion E; subst. exists (x :: d1), (y :: d2), r. repeat split; auto; discriminate.
+  - intros (d1 & d2 & r & -> & N1 & N2 & D1 & D2 & H & L1 & L2 & <- & <-).
+    assert (H46 : head_not isd ([46] ++ d2 ++ r) = true) by (cbn [app head_not]; now rewrite Dot).
+    rewrite (span_app isd d1 ([46] ++ d2 ++ r) D1 H46). destruct d1 as [|x d1]; [congruence|]. cbn [app].
+    rewrite N.eqb_refl, (span_app isd d2 r D2 H). destruct d2 as [|y d2]; [congruence|].
+    destruct (Nat.leb_spec (length (x :: d1)) lim); [|lia]. destruct (Nat.leb_spec (length (y :: d2)) lim); [|lia]. reflexivity.
+Qed.
+Lemma to_ascii_id d : forallb is_digit d = true -> map to_ascii_digit d = d.
+Proof.
+  induction d as [|c d IH]; cbn [forallb map]; auto. intros H. apply andb_prop in H as [H1 H2]. rewrite (IH H2). f_equal.
+  unfold to_ascii_digit. unfold is_digit in H1. apply andb_prop in H1 as [_ H1]. apply N.leb_le in H1. destruct (N.ltb_spec c 128); [reflexivity | lia].
+Qed.
+(* glibc: accepted iff  <ASCII digits>.<ASCII digits><rest>  with both runs within the limit; inside the limit it is the parser of 16./22. *)
+Theorem parse_glibc_l_spec lim s M m : parse_glibc_version_l lim s = Some (M, m) <-> version_shape_l is_digit lim s M m.
+Proof. apply scan_l_spec. reflexivity. Qed.
+Theorem parse_glibc_l_short lim s : (length s <= lim)%nat -> parse_glibc_version_l lim s = parse_glibc_version s.
+Proof.
+  intros L. unfold parse_glibc_version_l, scan_version_l, parse_glibc_version, within.
+  destruct (span is_digit s) as [d1 r1] eqn:S1. apply span_complete in S1 as (-> & D1 & _).
+  destruct d1 as [|x d1]; [reflexivity|]. destruct r1 as [|c r2]; [reflexivity|]. destruct (c =? 46); [|reflexivity].
+  destruct (span is_digit r2) as [d2 r] eqn:S2. apply span_complete in S2 as (-> & D2 & _). destruct d2 as [|y d2]; [reflexivity|].
+  rewrite !app_length in L. cbn [length] in L. rewrite app_length in L. cbn [length] in L.
+  destruct (Nat.leb_spec (length (x :: d1)) lim); [|cbn [length] in *; lia]. destruct (Nat.leb_spec (length (y :: d2)) lim); [|cbn [length] in *; lia].
+  cbn [andb]. now rewrite !to_ascii_id.
+Qed.
+Theorem parse_glibc_l_too_long lim s M m : parse_glibc_version s = Some (M, m) -> parse_glibc_version_l lim s = None \/ parse_glibc_version_l lim s = Some (M, m).
+Proof.
+  intros P. unfold parse_glibc_version_l, scan_version_l. unfold parse_glibc_version in P.
+  destruct (span is_digit s) as [d1 r1] eqn:S1. apply span_complete in S1 as (-> & D1 & _).
+  destruct d1 as [|x d1]; [discriminate|]. destruct r1 as [|c r2]; [discriminate|]. destruct (c =? 46); [|discriminate].
+  destruct (span is_digit r2) as [d2 r] eqn:S2. apply span_complete in S2 as (-> & D2 & _). destruct d2 as [|y d2]; [discriminate|].
+  destruct (within lim (x :: d1) && within lim (y :: d2)); [right | now left]. rewrite !to_ascii_id by assumption. exact P.
+Qed.
+(* musl: the digit class is the Unicode one *)
+Theorem parse_musl_l_iff lim output M m :
+  parse_musl_version_l lim output = Some (M, m) <->
+  exists l0 l1 more v, nonblank_lines output = l0 :: l1 :: more /\ firstn 4 l0 = s_musl /\ l1 = s_Version_ ++ v /\ version_shape_l is_ud lim v M m.
+Proof.
+  unfold parse_musl_version_l. fold (nonblank_lines output). split.
+  - destruct (nonblank_lines output) as [|l0 [|l1 more]]; try discriminate.
+    destruct (streq_spec (firstn 4 l0) s_musl) as [E0|]; [|discriminate]. cbn [negb].
+    destruct (starts_with s_Version_ l1) eqn:E1; [|discriminate]. cbn [negb]. intros S. apply scan_l_spec in S; [|reflexivity].
+    exists l0, l1, more, (skipn 8 l1). repeat split; auto. exact (starts_with_split s_Version_ l1 E1).
+  - intros (l0 & l1 & more & v & -> & E0 & -> & S). rewrite E0, streq_refl, starts_with_app. cbn [negb].
+    change (skipn 8 (s_Version_ ++ v)) with v. apply scan_l_spec; [reflexivity | exact S].
 Qed.
